@@ -45,7 +45,17 @@ var fixedScripts = []language.Script{language.Latin, language.Arabic, language.C
 var commonRunes = []rune{' ', '1', 'A', 'a', '.', 0xE9, 0x627, 0x4E00, 0x1F600, 0xE000, 0x10FFFF, 0xD800, 0, 0xFFFD}
 
 func genAspect(r *gen.RNG) Asp {
-	return Asp{Style: uint8(1 + r.Intn(2)), Weight: float32(gen.Pick(r, weights)), Stretch: float32(gen.Pick(r, stretches))}
+	a := Asp{Style: uint8(1 + r.Intn(2)), Weight: float32(gen.Pick(r, weights)), Stretch: float32(gen.Pick(r, stretches))}
+	// descriptions with unspecified (zero) fields are legitimate: they mean regular
+	switch r.Intn(16) {
+	case 0:
+		a = Asp{}
+	case 1:
+		a.Weight = 0
+	case 2:
+		a.Style, a.Stretch = 0, 0
+	}
+	return a
 }
 
 // a few aspects per history so that equal aspects and near misses are common
